@@ -25,7 +25,7 @@ TRAPOID_KEY = ber.oid("1.3.6.1.6.3.1.1.4.1.0")
 TRAP_OID = ber.oid("1.3.6.1.6.3.1.1.5.3")
 FOREIGN = [b"private", b"publi", b"public1", b"", b"Public", b"p"]
 GARBAGE = [b"", b"\x30", b"\x30\x80", b"\xff\xff", b"\x30\x05\x02\x01\x01", b"\x30\x84\xff\xff\xff\xff"]
-ADDRS = [("192.0.2.10", 40001), ("2001:db8::7", 162)]
+ADDRS = [("192.0.2.10", 40001), ("2001:db8::7", 162, 0, 0)]   # (an AF_INET6 socket reports host, port, flowinfo, scope id)
 PAYLOAD = [("str", b"link down"), ("int", 2), ("oid", (1, 3, 6, 1, 2, 1, 2, 2, 1, 1, 7)), ("ip", bytes([10, 0, 0, 9])), ("c32", 99), ("tt", 4242),
            ("c64", 2 ** 40), ("opaque", b"\x00")]
 
@@ -118,7 +118,7 @@ def make_harness(nmax):
                             problem = "bindings %r, sent %r" % (got, vbs)
                             break
                         src = getattr(trap, "source", None)
-                        if src is None or (src.address, src.port) != addr:
+                        if src is None or (src.address, src.port) != addr[:2]:
                             problem = "trap.source %r, sender %r" % (src, addr)
                             break
                         info = TrapInfo(trap)
